@@ -157,6 +157,7 @@ def run_case(ctx, idx, rng, tier):
     mon = EomMonitor(ctx)
     r = prog.Runner(ctx, dev, reg, [mon])
     g = gen.ProgGen(rng, dev, reg, r.chspecs, weights=WEIGHTS)
+    g.motifs["idle-then-eom"] = 0.25
     for _ in range(rng.randint(8, 36)):
         op = g.next_op()
         ev = r.step(op)
